@@ -144,6 +144,28 @@ def gen_T08():
          '_maybeStartSasl changed')
     src_903 = ast.unparse(find_def(t, 'do903', 'Irc'))
     need('self.sasl_authenticated = True' in src_903 and 'on_sasl_auth_finished' in src_903 and 'endCapabilityNegociation' in src_903, 'do903 changed')
+    # authenticate_generator: the loop the model's auth_gen mirrors (one iteration per multiple of the chunk size <= len; empty -> '+')
+    ag = find_def(u, 'authenticate_generator')
+    loops = [n for n in ag.body if isinstance(n, ast.For)]
+    need(len(loops) == 1 and ag.body[-1] is loops[0] and not any(isinstance(n, (ast.Return, ast.Yield)) for st in ag.body[:-1] for n in ast.walk(st)),
+         'authenticate_generator: expected base64 preamble and one for loop')
+    need(ast.unparse(loops[0]) == "for n in range(0, len(authstring) + 1, AUTHENTICATE_CHUNK_SIZE):\n"
+                                  "    chunk = authstring[n:n + AUTHENTICATE_CHUNK_SIZE] or '+'\n    yield chunk",
+         'authenticate_generator chunking loop changed')
+    src_dec = ast.unparse(find_def(u, 'feed', 'AuthenticateDecoder'))
+    need("if chunk == '+' or len(chunk) != AUTHENTICATE_CHUNK_SIZE:\n        self.ready = True" in src_dec, 'AuthenticateDecoder.feed changed')
+    src_sss = ast.unparse(find_def(t, 'sendSaslString', 'Irc'))
+    need('for chunk in ircutils.authenticate_generator(string):' in src_sss, 'sendSaslString changed')
+    # ServersMixin (C09): the stored STS policy is applied to the popped entry, at pop time, on every _getNextServer
+    d = tree('src/drivers/__init__.py')
+    gns = [ast.unparse(x) for x in _body(find_def(d, '_getNextServer', 'ServersMixin'))]
+    need(gns[0] == 'if not self.servers:\n    self.servers = self._getServers()' and gns[-3:] ==
+         ['server = self.servers.pop(0)', 'self.currentServer = self._applyStsPolicy(server)', 'return self.currentServer'],
+         '_getNextServer: the policy must be applied to the popped entry')
+    need([ast.unparse(x) for x in _body(find_def(d, '_getServers', 'ServersMixin'))] == ['return self.networkGroup.servers()[:]'], '_getServers changed')
+    src_ap = ast.unparse(find_def(d, '_applyStsPolicy', 'ServersMixin'))
+    need("if lastDisconnect is not None and lastDisconnect + policy['duration'] < time.time():" in src_ap
+         and "return Server(server.hostname, policy['port'], server.attempt, force_tls_verification=True)" in src_ap, '_applyStsPolicy changed')
     has_filter = any(isinstance(n, ast.FunctionDef) and n.name == 'filterSaslMechanisms' for n in irc.body)
     order = ['on_init_messages_sent', 'on_sasl_cap', 'on_sasl_auth_finished', 'on_cap_end', 'on_start_motd', 'on_end_motd', 'on_shutdown']
     out = '(* FSM states: ' + ', '.join('%s=%d' % kv for kv in sorted(states.items(), key=lambda kv: kv[1])) + ' *)\n'
